@@ -55,3 +55,16 @@ reg('C07',
     'Targets above 6 atoms are outside the bound. Queries use the pure-Python matcher (_cython=False); operators on queries go through the default path.',
     'bounded exhaustive enumeration of pattern x target x scope x filter on the real matcher vs brute-force reference',
     'DESIGN.md s5 C07')
+
+reg('C17',
+    'Every molecule of D(<=5 atoms, <=1 deviation; thorough <=2) under ALL atom numberings (n<=4) or the GEN family (n=5), two atom insertion '
+    'orders and two bond insertion orders, plus the corpus (stride 8; thorough all 4200) under GEN renumberings, is pushed through linear/Morgan '
+    'hash sets, bit sets, fingerprints and fragment dictionaries. The hash sets are compared with an independent enumerator of simple paths '
+    '(canonical direction, multiplicity cap) and an iterated-neighbourhood hasher over the (min,max) 1..6 x bit-pairs 0..5 grid; folded bits with '
+    'the documented {(h >> i*log2 len) & (len-1), i < active bits} over lengths 2^4..2^12 x active bits 1..4; all outputs must be equal across '
+    'numberings and insertion orders.',
+    'Trusted: vf/oracle/paths.py; built-in tuple hash as the documented hash. Fragment SMILES *texts* are compared modulo aromatic case, H counts '
+    'and direction for the equality-across-numberings clause (strict difference = recorded known finding C17-linear-smiles-text); neighbourhood '
+    'texts that differ only in stereo marks fall under C01 exclusion (i) and are counted as out of domain.',
+    'bounded exhaustive enumeration (molecules x numberings x insertion orders x parameter grid) on the real code vs reference enumerators',
+    'DESIGN.md s5 C17')
